@@ -323,6 +323,9 @@ impl FromStr for U256 {
     type Err = ParseIntError;
 
     fn from_str(s: &str) -> Result<Self, Self::Err> {
+        if s.is_empty() {
+            return Err(ParseIntError::Empty);
+        }
         let decimal = s.trim_start_matches('0');
         if Self::MAX_DIGITS < decimal.chars().count() {
             return Err(ParseIntError::PosOverflow);
@@ -350,6 +353,7 @@ impl FromStr for U256 {
 /// Reimplementation of [`std::num::ParseIntError`] that we can construct.
 #[derive(Debug, Copy, Clone, Eq, PartialEq, Hash)]
 pub enum ParseIntError {
+    Empty,
     InvalidDigit,
     PosOverflow,
 }
@@ -357,6 +361,7 @@ pub enum ParseIntError {
 impl fmt::Display for ParseIntError {
     fn fmt(&self, f: &mut fmt::Formatter<'_>) -> fmt::Result {
         match self {
+            Self::Empty => write!(f, "Cannot parse integer from empty string"),
             Self::InvalidDigit => write!(f, "Invalid decimal digit"),
             Self::PosOverflow => write!(f, "Number too large to fit in target type"),
         }
